@@ -18,9 +18,10 @@ from .astutil import up, chain
 
 class Unk:
     """Poison: a value the interpreter could not model."""
-    def __init__(self, why, node=None):
+    def __init__(self, why, node=None, definite=False):
         self.why = why
         self.line = getattr(node, 'lineno', None)
+        self.definite = definite      # True: a definite structural error (axis roles), not a modelling gap
 
     def __repr__(self):
         return 'Unk(%s%s)' % (self.why, '' if self.line is None else ' @%d' % self.line)
@@ -439,6 +440,9 @@ class Interp:
             self.store_sub(t, val, env, mod)
             return
 
+    def _in_generic_loop_over(self, lab, env):
+        return any(isinstance(v, Pinned) and v.label == lab for v in env.values())
+
     def _dead_store(self, t, env, mod):
         ix = t.slice
         idx = ix.elts if isinstance(ix, ast.Tuple) else [ix]
@@ -566,7 +570,7 @@ class Interp:
                 if isinstance(v, Pinned):
                     if lab != v.label:
                         self.findings.append(Finding('label-clash', 'index over axis %r used on axis %r in store %s' % (v.label, lab, up(sub)), sub, mod.path))
-                        setv(Unk('label clash', t))
+                        setv(Unk('label clash', t, definite=True))
                         return
                     cond = cond * v.guard
                     ax += 1
@@ -574,14 +578,18 @@ class Interp:
                     for k, d in enumerate(v.dims):
                         if ax + k >= len(cur_dims) or cur_dims[ax + k] != d:
                             self.findings.append(Finding('label-clash', 'mask over %r used on axes %r in store %s' % (v.dims, tuple(cur_dims[ax:ax + v.ndim]), up(sub)), sub, mod.path))
-                            setv(Unk('label clash', t))
+                            setv(Unk('label clash', t, definite=True))
                             return
                     cond = cond * v.poly
                     for k in range(v.ndim):
                         new_dims.append(cur_dims[ax]); ax += 1
                 elif isinstance(v, int) and not isinstance(v, bool):
                     self.positional.append((lab, v, mod.path, sub.lineno))
-                    setv(Unk('store at a constant position of a labelled axis', t))
+                    if lab is not None and self._in_generic_loop_over(lab, env):
+                        self.findings.append(Finding('label-clash', 'store at the constant position %d of axis %r inside a loop over that axis: %s' % (v, lab, up(sub)), sub, mod.path))
+                        setv(Unk('store at a constant position of the looped axis', t, definite=True))
+                    else:
+                        setv(Unk('store at a constant position of a labelled axis', t))
                     return
                 else:
                     setv(Unk('store index form %s' % up(ix), t))
@@ -602,7 +610,7 @@ class Interp:
             bdims(tuple(cur_dims), v.dims)
         except LabelClash as e:
             self.findings.append(Finding('label-clash', '%s in store %s' % (e, up(t)), t, mod.path))
-            setv(Unk('label clash', t))
+            setv(Unk('label clash', t, definite=True))
             return
         vp = v.poly
         if old.unit is not None and v.unit is not None and not (old.unit == v.unit) and not (vp.is_const()):
@@ -616,7 +624,7 @@ class Interp:
             return self._expr(e, env, mod)
         except LabelClash as ex:
             self.findings.append(Finding('label-clash', str(ex), e, mod.path))
-            return Unk('label clash: %s' % ex, e)
+            return Unk('label clash: %s' % ex, e, definite=True)
         except ZeroDivisionError as ex:
             return Unk('division by zero in normal form', e)
         except (ValueError, OverflowError) as ex:
@@ -1015,7 +1023,7 @@ class Interp:
             if isinstance(k, Pinned):
                 if v.label is not None and k.label != v.label:
                     self.findings.append(Finding('label-clash', 'list over %r indexed by a loop over %r: %s' % (v.label, k.label, up(e)), e, mod.path))
-                    return Unk('label clash', e)
+                    return Unk('label clash', e, definite=True)
                 return v.elem
             if isinstance(k, int):
                 return v.elem
@@ -1208,6 +1216,9 @@ class Interp:
     def libcall(self, name, args, kw, e, mod):
         last = name.split('.')[-1]
         root = name.split('.')[0]
+        if root in ('numpy', 'np') and last == 'memmap' and 'shape' in kw:
+            # a fresh zero-initialised buffer of the given shape (storage class is not modelled)
+            return self.libcall('numpy.zeros', [kw['shape']], {}, e, mod)
         if any(isinstance(a, Unk) for a in args):
             return [a for a in args if isinstance(a, Unk)][0]
         if root in ('numpy', 'np'):
@@ -1229,6 +1240,12 @@ class Interp:
                 if last in ('isinf', 'isnan'):
                     return x.with_(poly=alg.mk_ind(last, x.poly), unit=None)
                 return x.with_(poly=alg.mk_fn(last, P(x.poly)))
+            if last == 'strip' and args:
+                x = self._as_arr(args[0])
+                return x.with_(poly=alg.mk_fn('strip', P(x.poly))) if isinstance(x, Arr) else x
+            if last == 'memmap' and 'shape' in kw:
+                # a fresh zero-initialised buffer of the given shape (storage class is not modelled)
+                args, last = [kw['shape']], 'zeros'
             if last in ('zeros', 'ones', 'empty'):
                 sh = args[0]
                 c = 1 if last == 'ones' else 0
@@ -1241,6 +1258,9 @@ class Interp:
                 if isinstance(sh, tuple):
                     dims = []
                     for s in sh:
+                        if isinstance(s, int) and not isinstance(s, bool) and s == 1:
+                            dims.append(None)
+                            continue
                         lab = _len_label(s.poly) if isinstance(s, Arr) else None
                         if lab is None:
                             return Unk('array shape %r' % (sh,), e)
@@ -1842,6 +1862,11 @@ def merge_into(orig, a, b, cond, node):
         for k in keys:
             orig[k] = merge_into(orig.get(k, _MISSING), a.get(k, _MISSING), b.get(k, _MISSING), cond, node)
         return orig
+    if isinstance(a, GenList) and isinstance(b, GenList) and a.label == b.label:
+        if isinstance(orig, GenList):
+            orig.elem = merge_into(orig.elem, a.elem, b.elem, cond, node)
+            return orig
+        return GenList(a.label, merge_into(_MISSING, a.elem, b.elem, cond, node))
     if isinstance(a, dict) and isinstance(b, dict):
         return {k: merge_into(_MISSING, a.get(k, _MISSING), b.get(k, _MISSING), cond, node) for k in set(a) | set(b)}
     if isinstance(a, list) and isinstance(b, list) and len(a) == len(b):
